@@ -1,9 +1,42 @@
 import RegexVerif.Sexp
+import RegexVerif.Model.Facts
+import RegexVerif.Driver.SpecIO
 
 namespace RegexVerif.Driver
-open RegexVerif Sexp
+open RegexVerif Sexp Spec Facts
 
-/-- protocol lines with head `c04` (stub) -/
-def handleC04 (_args : List Sexp) : String := "(unimplemented)"
+def anchorName : Anchor → String
+  | .bol => "bol" | .eol => "eol" | .boundary => "boundary" | .nonboundary => "nonboundary"
+  | .beginning => "beginning" | .start => "start" | .endz => "endz" | .end => "end" | .begz => "begz"
+
+def optAnchor : Option Anchor → Sexp
+  | some a => .atom (anchorName a)
+  | none => .atom "none"
+
+/-- `(c04 facts <rtl 0|1> <pat>)` →
+    `(ok (minlen N) (maxlen N|-1) (lead A|none) (trail A|none) (prefix (b…) 0|1))`
+
+    * `minlen`/`maxlen`: `ComputeMinLength` / `computeMaxLength` of the tree;
+    * `lead`: the published `LeadingAnchor` (`findLeadingOrTrailingAnchor(root, true)`, `Bol` filtered
+      out for right-to-left); `trail`: `findLeadingOrTrailingAnchor(root, false)`;
+    * `prefix`: the BYTES of `findPrefix(root)` and the return value of `tryFindPrefix` — the model of
+      the left-to-right analysis, meaningful for `rtl = 0` only. -/
+def handleC04 (args : List Sexp) : String :=
+  match args with
+  | [.atom "facts", rtl, p] =>
+    match rtl.bool?, pat? p with
+    | some rtl, some p =>
+      let mx : Sexp := match maxLen p with
+        | some k => ofNat k
+        | none => .atom "-1"
+      let pre := leadingPrefix utf8enc p
+      toString (Sexp.list [.atom "ok",
+        mk "minlen" [ofNat (minLen p)],
+        mk "maxlen" [mx],
+        mk "lead" [optAnchor (publishedLeadingAnchor rtl p)],
+        mk "trail" [optAnchor (trailingAnchor rtl p)],
+        mk "prefix" [ofNats pre.1, ofBool pre.2]])
+    | _, _ => "(bad-op)"
+  | _ => "(bad-op)"
 
 end RegexVerif.Driver
